@@ -2,6 +2,7 @@
 //! call the real macros (`load_locales!`, `td_string!`, `td_display!`, `td!`, ...), compiled in one
 //! workspace, run, and their printed observations compared with the reference semantics.
 
+mod c13;
 mod emit;
 mod emit_c02;
 mod plan;
